@@ -17,7 +17,7 @@ DEFS = vlib.BASE_DEFS + vlib.EVENT_DEFS
 
 
 def validate(ctx, exe, args, trace, what):
-    return vlib.record_and_validate(ctx, exe, args, trace, "Loop", "Trace_Deferred.tla", "Trace_Deferred.cfg", what, timeout=900)
+    return vlib.record_and_validate(ctx, exe, args, trace, "Loop", "Trace_Deferred.tla", "Trace_Deferred.cfg", what, timeout=300 if ctx.quick() else 2400)
 
 
 def run(ctx):
